@@ -206,9 +206,7 @@ theorem fileNoMmap_inv (st : NwSt) (maxBytes : Nat) (h : CqWF st.q) :
         | eintr => simp only [hres]; exact NwInv.of_same rfl rfl rfl h
         | epipe => simp only [hres]; exact NwInv.of_same rfl rfl rfl h
         | econnreset => simp only [hres]; exact NwInv.of_same rfl rfl rfl h
-      | enotconn => simp only [hres]; exact NwInv.of_same rfl rfl rfl h
         | enotconn => simp only [hres]; exact NwInv.of_same rfl rfl rfl h
-    | enotconn => simp only [hres]; exact NwInv.of_same rfl rfl rfl h
         | einval => simp only [hres]; exact NwInv.of_same rfl rfl rfl h
         | eio => simp only [hres]; exact NwInv.of_same rfl rfl rfl h
   · exact NwInv.refl h
@@ -257,7 +255,6 @@ theorem fileSendfile_inv (st : NwSt) (maxBytes : Nat) (h : CqWF st.q) :
       | epipe => simp only [hres]; exact NwInv.of_same rfl rfl rfl h
       | econnreset => simp only [hres]; exact NwInv.of_same rfl rfl rfl h
       | enotconn => simp only [hres]; exact NwInv.of_same rfl rfl rfl h
-    | enotconn => simp only [hres]; exact NwInv.of_same rfl rfl rfl h
       | einval => simp only [hres]; exact fileNoMmap_inv' st _ maxBytes rfl rfl rfl h
       | eio => simp only [hres]; exact NwInv.of_same rfl rfl rfl h
   · exact NwInv.refl h
@@ -305,5 +302,414 @@ theorem driveGo_inv (b : Backend) (maxBytes : Nat) : ∀ (fuel : Nat) (rc : Int)
       split
       · exact hs
       · exact hs.trans (driveGo_inv b maxBytes fuel rc' (calls + 1) st' hs.wf)
+
+/-! ### progress: a cooperative socket empties the queue; retryable answers never abort -/
+
+def meas (q : Cq) : Nat := cqLen q + q.length
+
+theorem cqLen_cons (c : Chunk) (q : Cq) : cqLen (c :: q) = c.remLen + cqLen q := by
+  simp [cqLen]
+
+theorem cqFlat_length : ∀ (q : Cq), CqWF q → (cqFlat q).length = cqLen q
+  | [], _ => rfl
+  | c :: rest, h => by
+    rw [cqFlat_cons, cqLen_cons, List.length_append, Chunk.rem_length h.head, cqFlat_length rest h.tail]
+
+theorem Chunk.remLen_advance (c : Chunk) (n : Nat) : (c.advance n).remLen = c.remLen - n := by
+  cases c <;> simp [Chunk.advance, Chunk.remLen] <;> omega
+
+theorem markWritten_meas : ∀ (q : Cq) (n : Nat), n ≤ cqLen q →
+    cqLen (markWritten q n) = cqLen q - n ∧ (markWritten q n).length ≤ q.length
+  | [], n, _ => by simp [markWritten, cqLen]
+  | c :: rest, n, h => by
+    rw [cqLen_cons] at h
+    unfold markWritten
+    split
+    · rename_i hge
+      have := markWritten_meas rest (n - c.remLen) (by omega)
+      rw [cqLen_cons]
+      exact ⟨by omega, by simp; omega⟩
+    · rename_i hlt
+      rw [cqLen_cons, cqLen_cons, Chunk.remLen_advance]
+      exact ⟨by omega, by simp⟩
+
+theorem removeFinished_meas : ∀ (q : Cq), cqLen (removeFinished q) = cqLen q ∧ (removeFinished q).length ≤ q.length
+  | [] => by simp [removeFinished]
+  | c :: rest => by
+    unfold removeFinished
+    split
+    · rename_i h0
+      have := removeFinished_meas rest
+      rw [cqLen_cons, h0]
+      exact ⟨by omega, by simp; omega⟩
+    · exact ⟨rfl, Nat.le_refl _⟩
+
+/-- dropping a finished head chunk strictly shrinks the measure -/
+theorem removeFinished_head (c : Chunk) (rest : Cq) (h0 : c.remLen = 0) :
+    meas (removeFinished (c :: rest)) < meas (c :: rest) := by
+  have := removeFinished_meas rest
+  unfold removeFinished
+  simp only [h0, if_true]
+  unfold meas
+  rw [cqLen_cons, h0]
+  simp only [List.length_cons]
+  omega
+
+theorem gatherIov_nil_head (maxBytes : Nat) (d : Bytes) (o : Nat) (rest : Cq) (ts num : Nat)
+    (h : gatherIov maxBytes (.mem d o :: rest) ts num = []) : d.length - o = 0 := by
+  unfold gatherIov at h
+  split at h
+  · simp only [] at h
+    split at h <;> simp at h
+  · omega
+
+theorem gatherIov_pos (maxBytes : Nat) : ∀ (q : Cq) (ts num : Nat), ts < maxBytes →
+    gatherIov maxBytes q ts num ≠ [] → 0 < (gatherIov maxBytes q ts num).flatten.length
+  | [], _, _, _, h => by simp [gatherIov] at h
+  | .file .. :: _, _, _, _, h => by simp [gatherIov] at h
+  | .mem d o :: rest, ts, num, hts, h => by
+    unfold gatherIov at h ⊢
+    split
+    · rename_i hpos
+      simp only []
+      have hl : ((d.drop o).take (min (d.length - o) (maxBytes - ts))).length > 0 := by
+        simp only [List.length_take, List.length_drop]; omega
+      split
+      · simp only [List.flatten_cons, List.flatten_nil, List.append_nil]; exact hl
+      · simp only [List.flatten_cons, List.length_append]; omega
+    · rename_i hz
+      simp only [hz, if_false] at h
+      exact gatherIov_pos maxBytes rest ts num hts h
+
+/-- what a step guarantees when every socket answer is a non-empty acceptance -/
+structure StepProg (st st' : NwSt) (rc : Int) (max' : Nat) : Prop where
+  rcOk : rc = 0 ∨ rc = -3
+  dec : meas st'.q < meas st.q
+  budget : meas st'.q + st.sched.length ≤ meas st.q + st'.sched.length
+  sub : ∀ r ∈ st'.sched, r ∈ st.sched
+  maxpos : rc = 0 → max' > 0
+
+theorem account_prog (st0 st : NwSt) (maxBytes wr toSend : Nat) (data : Bytes) (hq : st.q = st0.q)
+    (hs : st.sched.length + 1 = st0.sched.length) (hsub : ∀ r ∈ st.sched, r ∈ st0.sched)
+    (hwr : 0 < wr) (hle : wr ≤ cqLen st0.q) :
+    StepProg st0 (account st maxBytes wr toSend data).2.1 (account st maxBytes wr toSend data).1
+      (account st maxBytes wr toSend data).2.2 := by
+  have hm := markWritten_meas st0.q wr hle
+  simp only [account, hq]
+  refine ⟨?_, ?_, ?_, hsub, ?_⟩
+  · split <;> simp
+  · unfold meas; simp only []; omega
+  · unfold meas; simp only []; omega
+  · intro h
+    split at h
+    · rename_i hc; exact hc.2
+    · simp at h
+
+theorem removeFinished_prog (st : NwSt) (maxBytes : Nat) (c : Chunk) (rest : Cq) (hq : st.q = c :: rest)
+    (h0 : c.remLen = 0) (hmax : 0 < maxBytes) :
+    StepProg st { st with q := removeFinished st.q } 0 maxBytes := by
+  refine ⟨Or.inl rfl, ?_, ?_, fun r hr => hr, fun _ => hmax⟩
+  · simp only [hq]; exact removeFinished_head c rest h0
+  · have := removeFinished_head c rest h0
+    simp only [hq]; omega
+
+theorem writevMem_prog (st : NwSt) (maxBytes : Nat) (d : Bytes) (o : Nat) (rest : Cq) (k : Nat) (t : List WrRes)
+    (hwf : CqWF st.q) (hq : st.q = .mem d o :: rest) (hmax : 0 < maxBytes) (hs : st.sched = .ok k :: t)
+    (hk : 0 < k) :
+    StepProg st (writevMem st maxBytes).2.1 (writevMem st maxBytes).1 (writevMem st maxBytes).2.2 := by
+  unfold writevMem
+  simp only []
+  split
+  · rename_i hemp
+    have hnil : gatherIov maxBytes st.q 0 0 = [] := by simpa using hemp
+    rw [hq] at hnil
+    exact removeFinished_prog st maxBytes _ rest hq (by simpa [Chunk.remLen] using gatherIov_nil_head _ _ _ _ _ _ hnil) hmax
+  · rename_i hne
+    have hne' : gatherIov maxBytes st.q 0 0 ≠ [] := by simpa using hne
+    have hpos := gatherIov_pos maxBytes st.q 0 0 hmax hne'
+    obtain ⟨tl, htl⟩ := gatherIov_prefix maxBytes st.q 0 0
+    have hle : (gatherIov maxBytes st.q 0 0).flatten.length ≤ cqLen st.q := by
+      rw [← cqFlat_length st.q hwf, htl]; simp
+    simp only [hs, popRes]
+    exact account_prog st _ _ _ _ _ rfl (by simp [hs]) (by intro r hr; simp [hs]; exact Or.inr hr)
+      (by omega) (by omega)
+
+theorem bufsize_pos : 0 < Extracted.noMmapBufSize := by decide
+
+theorem fileNoMmap_prog (st : NwSt) (maxBytes : Nat) (ct : Bytes) (o e : Nat) (rest : Cq) (k : Nat)
+    (t : List WrRes) (hwf : CqWF st.q) (hq : st.q = .file ct o e :: rest) (hmax : 0 < maxBytes)
+    (hs : st.sched = .ok k :: t) (hk : 0 < k) :
+    StepProg st (fileNoMmap st maxBytes).2.1 (fileNoMmap st maxBytes).1 (fileNoMmap st maxBytes).2.2 := by
+  have hc : (Chunk.file ct o e).WF := hwf _ (by rw [hq]; simp)
+  simp only [Chunk.WF] at hc
+  unfold fileNoMmap
+  rw [hq]
+  simp only []
+  split
+  · rename_i hz
+    have : e - o = 0 := by omega
+    have := removeFinished_prog st maxBytes (.file ct o e) rest hq (by simpa [Chunk.remLen] using this) hmax
+    simpa [hq] using this
+  · rename_i hnz
+    have hb := bufsize_pos
+    have hlen : ((ct.drop o).take (min (min (e - o) maxBytes) Extracted.noMmapBufSize)).length
+        = min (min (e - o) maxBytes) Extracted.noMmapBufSize := by
+      simp only [List.length_take, List.length_drop]; omega
+    split
+    · rename_i hemp
+      have : ((ct.drop o).take (min (min (e - o) maxBytes) Extracted.noMmapBufSize)).length = 0 := by
+        rw [List.isEmpty_iff] at hemp; rw [hemp]; rfl
+      omega
+    · simp only [hs, popRes]
+      have hle : ((ct.drop o).take (min (min (e - o) maxBytes) Extracted.noMmapBufSize)).length ≤ cqLen st.q := by
+        rw [hq, cqLen_cons, hlen]; simp only [Chunk.remLen]; omega
+      have := account_prog st { st with sched := t, trace := st.trace ++ [Sys.write
+          ((ct.drop o).take (min (min (e - o) maxBytes) Extracted.noMmapBufSize)).length] } maxBytes
+        (min k ((ct.drop o).take (min (min (e - o) maxBytes) Extracted.noMmapBufSize)).length)
+        ((ct.drop o).take (min (min (e - o) maxBytes) Extracted.noMmapBufSize)).length
+        ((ct.drop o).take (min (min (e - o) maxBytes) Extracted.noMmapBufSize)) rfl (by simp [hs])
+        (by intro r hr; simp [hs]; exact Or.inr hr) (by omega) (by omega)
+      simpa [hq] using this
+
+theorem fileSendfile_prog (st : NwSt) (maxBytes : Nat) (ct : Bytes) (o e : Nat) (rest : Cq) (k : Nat)
+    (t : List WrRes) (hwf : CqWF st.q) (hq : st.q = .file ct o e :: rest) (hmax : 0 < maxBytes)
+    (hs : st.sched = .ok k :: t) (hk : 0 < k) :
+    StepProg st (fileSendfile st maxBytes).2.1 (fileSendfile st maxBytes).1 (fileSendfile st maxBytes).2.2 := by
+  have hc : (Chunk.file ct o e).WF := hwf _ (by rw [hq]; simp)
+  simp only [Chunk.WF] at hc
+  unfold fileSendfile
+  rw [hq]
+  simp only []
+  split
+  · rename_i hz
+    have : e - o = 0 := by omega
+    have := removeFinished_prog st maxBytes (.file ct o e) rest hq (by simpa [Chunk.remLen] using this) hmax
+    simpa [hq] using this
+  · rename_i hnz
+    simp only [hs, popRes]
+    have hwr : 0 < min (min k (min (e - o) maxBytes)) (ct.length - o) := by omega
+    simp only [hwr, if_true]
+    have hle : min (min k (min (e - o) maxBytes)) (ct.length - o) ≤ cqLen (Chunk.file ct o e :: rest) := by
+      rw [cqLen_cons]; simp only [Chunk.remLen]; omega
+    have hm := markWritten_meas (Chunk.file ct o e :: rest) _ hle
+    refine ⟨?_, ?_, ?_, ?_, ?_⟩
+    · split
+      · exact Or.inr rfl
+      · split
+        · exact Or.inl rfl
+        · exact Or.inr rfl
+    · simp only [hq]; unfold meas; omega
+    · simp only [hq, hs, List.length_cons]; unfold meas; omega
+    · intro r hr; simp only [hs]; exact List.mem_cons_of_mem _ hr
+    · intro h
+      split at h
+      · simp at h
+      · omega
+
+theorem nwStep_prog (b : Backend) (st : NwSt) (maxBytes : Nat) (k : Nat) (t : List WrRes)
+    (hwf : CqWF st.q) (hne : st.q ≠ []) (hmax : 0 < maxBytes) (hs : st.sched = .ok k :: t) (hk : 0 < k) :
+    StepProg st (nwStep b st maxBytes).2.1 (nwStep b st maxBytes).1 (nwStep b st maxBytes).2.2 := by
+  unfold nwStep
+  split
+  · rename_i hq; exact absurd hq hne
+  · rename_i d o rest hq; exact writevMem_prog st maxBytes d o rest k t hwf hq hmax hs hk
+  · rename_i ct o e rest hq
+    cases b with
+    | writev => exact fileNoMmap_prog st maxBytes ct o e rest k t hwf hq hmax hs hk
+    | sendfile => exact fileSendfile_prog st maxBytes ct o e rest k t hwf hq hmax hs hk
+
+/-- the progress invariant: enough non-empty acceptances left for everything still queued -/
+structure ProgInv (st : NwSt) : Prop where
+  wf : CqWF st.q
+  ok : AllOkPos st.sched
+  enough : meas st.q ≤ st.sched.length
+
+theorem meas_pos {q : Cq} (h : q ≠ []) : 0 < meas q := by
+  cases q with
+  | nil => exact absurd rfl h
+  | cons c r => unfold meas; simp only [List.length_cons]; omega
+
+theorem ProgInv.sched_cons {st : NwSt} (h : ProgInv st) (hne : st.q ≠ []) :
+    ∃ k t, st.sched = .ok k :: t ∧ 0 < k := by
+  have := meas_pos hne
+  have hl := h.enough
+  cases hs : st.sched with
+  | nil => rw [hs] at hl; simp at hl; omega
+  | cons r t =>
+    obtain ⟨k, rfl, hk⟩ := h.ok r (by rw [hs]; simp)
+    exact ⟨k, t, rfl, hk⟩
+
+theorem nwLoop_prog (b : Backend) : ∀ (fuel : Nat) (st : NwSt) (maxBytes : Nat), ProgInv st → 0 < maxBytes →
+    (nwLoop b fuel st maxBytes).1 = 0 ∧ ProgInv (nwLoop b fuel st maxBytes).2 ∧
+    meas (nwLoop b fuel st maxBytes).2.q ≤ meas st.q ∧
+    (0 < fuel → st.q ≠ [] → meas (nwLoop b fuel st maxBytes).2.q < meas st.q)
+  | 0, st, _, h, _ => ⟨rfl, h, Nat.le_refl _, fun h0 => absurd h0 (Nat.lt_irrefl 0)⟩
+  | fuel + 1, st, maxBytes, h, hmax => by
+    unfold nwLoop
+    split
+    · rename_i hemp
+      have : st.q = [] := by simpa using hemp
+      exact ⟨rfl, h, Nat.le_refl _, fun _ hne => absurd this hne⟩
+    · rename_i hne0
+      have hne : st.q ≠ [] := by simpa using hne0
+      obtain ⟨k, t, hs, hk⟩ := h.sched_cons hne
+      have hp := nwStep_prog b st maxBytes k t h.wf hne hmax hs hk
+      have hinv := nwStep_inv b st maxBytes h.wf
+      rcases hstep : nwStep b st maxBytes with ⟨rc, st', max'⟩
+      rw [hstep] at hp hinv
+      simp only [] at hp hinv ⊢
+      have hpi : ProgInv st' := ⟨hinv.wf, fun r hr => h.ok r (hp.sub r hr), by have := hp.budget; have := h.enough; omega⟩
+      split
+      · rename_i hrc
+        refine ⟨?_, hpi, Nat.le_of_lt hp.dec, fun _ _ => hp.dec⟩
+        rcases hp.rcOk with e | e
+        · exact absurd e hrc
+        · simp [e]
+      · rename_i hrc
+        have hrc0 : rc = 0 := by simpa using hrc
+        have ih := nwLoop_prog b fuel st' max' hpi (hp.maxpos hrc0)
+        exact ⟨ih.1, ih.2.1, by have := ih.2.2.1; have := hp.dec; omega,
+          fun _ _ => by have := ih.2.2.1; have := hp.dec; omega⟩
+
+theorem networkWrite_prog (b : Backend) (st : NwSt) (maxBytes : Nat) (h : ProgInv st) (hmax : 0 < maxBytes) :
+    (networkWrite b st maxBytes).1 = 0 ∧ ProgInv (networkWrite b st maxBytes).2 ∧
+    (st.q ≠ [] → meas (networkWrite b st maxBytes).2.q < meas st.q) := by
+  have := nwLoop_prog b (cqLen st.q + st.q.length + 1) st maxBytes h hmax
+  exact ⟨this.1, this.2.1, fun hne => this.2.2.2 (by omega) hne⟩
+
+theorem driveGo_prog (b : Backend) (maxBytes : Nat) (hmax : 0 < maxBytes) : ∀ (fuel : Nat) (calls : Nat) (st : NwSt),
+    ProgInv st → meas st.q < fuel →
+    (driveGo b maxBytes fuel 0 calls st).1 = 0 ∧ (driveGo b maxBytes fuel 0 calls st).2.2.q = []
+  | 0, _, st, _, hf => by omega
+  | fuel + 1, calls, st, h, hf => by
+    unfold driveGo
+    by_cases hq : st.q = []
+    · simp [hq]
+    · obtain ⟨k, t, hs, _⟩ := h.sched_cons hq
+      have hqe : st.q.isEmpty = false := by
+        cases hh : st.q with
+        | nil => exact absurd hh hq
+        | cons _ _ => rfl
+      simp only [hqe, hs, List.isEmpty_cons, Bool.or_self, Bool.false_eq_true, if_false]
+      have hp := networkWrite_prog b st maxBytes h hmax
+      rw [hp.1]
+      simp only [Int.lt_irrefl, if_false]
+      exact driveGo_prog b maxBytes hmax fuel (calls + 1) _ hp.2.1 (by have := hp.2.2 hq; omega)
+
+theorem popRes_mem (s : List WrRes) : ∀ r ∈ (popRes s).2, r ∈ s := by
+  cases s with
+  | nil => intro r hr; simp [popRes] at hr
+  | cons a t => intro r hr; simp only [popRes] at hr; exact List.mem_cons_of_mem _ hr
+
+/-- with EAGAIN / EINTR as the next answer a step never reports an error -/
+theorem nwStep_again (b : Backend) (st : NwSt) (maxBytes : Nat) (hwf : CqWF st.q) (hmax : 0 < maxBytes)
+    (hres : (popRes st.sched).1 = .eagain ∨ (popRes st.sched).1 = .eintr) :
+    ((nwStep b st maxBytes).1 = 0 ∨ (nwStep b st maxBytes).1 = -3) ∧
+    (∀ r ∈ (nwStep b st maxBytes).2.1.sched, r ∈ st.sched) ∧
+    ((nwStep b st maxBytes).1 = 0 → 0 < (nwStep b st maxBytes).2.2) := by
+  have hb := bufsize_pos
+  unfold nwStep
+  split
+  · exact ⟨Or.inl rfl, fun r hr => hr, fun _ => hmax⟩
+  · unfold writevMem
+    simp only []
+    split
+    · exact ⟨Or.inl rfl, fun r hr => hr, fun _ => hmax⟩
+    · rcases hres with e | e <;> simp only [e, writeErrRc] <;>
+        exact ⟨by simp, popRes_mem _, fun h => by simp at h⟩
+  · rename_i ct o e rest hq
+    have hc : (Chunk.file ct o e).WF := hwf _ (by rw [hq]; simp)
+    simp only [Chunk.WF] at hc
+    cases b with
+    | writev =>
+      simp only []
+      unfold fileNoMmap
+      rw [hq]
+      simp only []
+      split
+      · exact ⟨Or.inl rfl, fun r hr => by simpa [hq] using hr, fun _ => hmax⟩
+      · split
+        · rename_i hnz hemp
+          exfalso
+          have : ((ct.drop o).take (min (min (e - o) maxBytes) Extracted.noMmapBufSize)).length = 0 := by
+            rw [List.isEmpty_iff] at hemp; rw [hemp]; rfl
+          simp only [List.length_take, List.length_drop] at this
+          omega
+        · rcases hres with e' | e' <;> simp only [e', writeErrRc] <;>
+            exact ⟨by simp, popRes_mem _, fun h => by simp at h⟩
+    | sendfile =>
+      simp only []
+      unfold fileSendfile
+      rw [hq]
+      simp only []
+      split
+      · exact ⟨Or.inl rfl, fun r hr => by simpa [hq] using hr, fun _ => hmax⟩
+      · rcases hres with e' | e' <;> simp only [e'] <;>
+          exact ⟨by simp, popRes_mem _, fun h => by simp at h⟩
+
+theorem nwStep_retry (b : Backend) (st : NwSt) (maxBytes : Nat) (hwf : CqWF st.q) (hmax : 0 < maxBytes)
+    (hr : ∀ r ∈ st.sched, Retryable r) :
+    ((nwStep b st maxBytes).1 = 0 ∨ (nwStep b st maxBytes).1 = -3) ∧
+    (∀ r ∈ (nwStep b st maxBytes).2.1.sched, r ∈ st.sched) ∧
+    ((nwStep b st maxBytes).1 = 0 → 0 < (nwStep b st maxBytes).2.2) := by
+  by_cases hq : st.q = []
+  · unfold nwStep; simp [hq, hmax]
+  · cases hs : st.sched with
+    | nil => rw [← hs]; exact nwStep_again b st maxBytes hwf hmax (Or.inl (by simp [hs, popRes]))
+    | cons r t =>
+      have hrr := hr r (by rw [hs]; simp)
+      cases r with
+      | ok k =>
+        have hp := nwStep_prog b st maxBytes k t hwf hq hmax hs hrr
+        exact ⟨hp.rcOk, by rw [← hs]; exact hp.sub, hp.maxpos⟩
+      | eagain => rw [← hs]; exact nwStep_again b st maxBytes hwf hmax (Or.inl (by simp [hs, popRes]))
+      | eintr => rw [← hs]; exact nwStep_again b st maxBytes hwf hmax (Or.inr (by simp [hs, popRes]))
+      | epipe => exact absurd hrr (by simp [Retryable])
+      | econnreset => exact absurd hrr (by simp [Retryable])
+      | enotconn => exact absurd hrr (by simp [Retryable])
+      | einval => exact absurd hrr (by simp [Retryable])
+      | eio => exact absurd hrr (by simp [Retryable])
+
+theorem nwLoop_retry (b : Backend) : ∀ (fuel : Nat) (st : NwSt) (maxBytes : Nat), CqWF st.q → 0 < maxBytes →
+    (∀ r ∈ st.sched, Retryable r) →
+    (nwLoop b fuel st maxBytes).1 = 0 ∧ (∀ r ∈ (nwLoop b fuel st maxBytes).2.sched, Retryable r)
+  | 0, st, _, _, _, hr => ⟨rfl, hr⟩
+  | fuel + 1, st, maxBytes, hwf, hmax, hr => by
+    unfold nwLoop
+    split
+    · exact ⟨rfl, hr⟩
+    · have hp := nwStep_retry b st maxBytes hwf hmax hr
+      have hinv := nwStep_inv b st maxBytes hwf
+      rcases hstep : nwStep b st maxBytes with ⟨rc, st', max'⟩
+      rw [hstep] at hp hinv
+      simp only [] at hp hinv ⊢
+      have hr' : ∀ r ∈ st'.sched, Retryable r := fun r h => hr r (hp.2.1 r h)
+      split
+      · rename_i hrc
+        refine ⟨?_, hr'⟩
+        rcases hp.1 with e | e
+        · exact absurd e hrc
+        · simp [e]
+      · rename_i hrc
+        have hrc0 : rc = 0 := by simpa using hrc
+        exact nwLoop_retry b fuel st' max' hinv.wf (hp.2.2 hrc0) hr'
+
+theorem driveGo_retry (b : Backend) (maxBytes : Nat) (hmax : 0 < maxBytes) : ∀ (fuel : Nat) (calls : Nat) (st : NwSt),
+    CqWF st.q → (∀ r ∈ st.sched, Retryable r) → (driveGo b maxBytes fuel 0 calls st).1 = 0
+  | 0, _, _, _, _ => rfl
+  | fuel + 1, calls, st, hwf, hr => by
+    unfold driveGo
+    split
+    · rfl
+    · have hp := nwLoop_retry b (cqLen st.q + st.q.length + 1) st maxBytes hwf hmax hr
+      have hinv := networkWrite_inv b st maxBytes hwf
+      have e : networkWrite b st maxBytes = nwLoop b (cqLen st.q + st.q.length + 1) st maxBytes := rfl
+      rw [e] at hinv ⊢
+      rcases hl : nwLoop b (cqLen st.q + st.q.length + 1) st maxBytes with ⟨rc', st'⟩
+      rw [hl] at hp hinv
+      simp only [] at hp hinv ⊢
+      rw [hp.1]
+      simp only [Int.lt_irrefl, if_false]
+      exact driveGo_retry b maxBytes hmax fuel (calls + 1) _ hinv.wf hp.2
 
 end LtVerif
